@@ -29,6 +29,11 @@ def findings_table():
     return "\n".join(rows)
 
 
+def _short(t, n=230):
+    t = t.replace('|', '/').replace('**', '')
+    return t if len(t) <= n else t[:n].rsplit(' ', 1)[0] + ' ...'
+
+
 def seeds_table():
     rows = ["| seed | property | change (file) | needs | detected by `./check <P>` (quick) | violation keys (first) |", "|---|---|---|---|---|---|"]
     for d in sorted(glob.glob(os.path.join(ROOT, "seeded", "*"))):
@@ -36,7 +41,7 @@ def seeds_table():
         meta = json.load(open(os.path.join(d, "meta.json"))) if os.path.exists(os.path.join(d, "meta.json")) else {}
         det = json.load(open(os.path.join(d, "detect.json"))) if os.path.exists(os.path.join(d, "detect.json")) else {}
         keys = ", ".join(f"`{k}`" for k in det.get("violation_keys", [])[:2])
-        rows.append(f"| {sid} | {meta.get('property', det.get('property', ''))} | {meta.get('change', '')} | {meta.get('needs', '')} | {'yes' if det.get('detected') else ('NO' if det else 'not run')} ({det.get('wall_s', '?')} s) | {keys} |")
+        rows.append(f"| {sid} | {meta.get('property', det.get('property', ''))} | {_short(meta.get('change', ''))} | {_short(meta.get('needs', ''))} | {'yes' if det.get('detected') else ('NO' if det else 'not run')} ({det.get('wall_s', '?')} s) | {keys} |")
     return "\n".join(rows)
 
 
